@@ -1255,3 +1255,11 @@ package whispertool
 // generated enum name table (a map: outside gowp's subset) - ASSUMED to map names to their constants
 //@ func AggregationMethodString
 //@   trusted
+
+// The text form of a value is strconv's shortest decimal that parses back to the same float64 ('f', -1, 64): the
+// format view / view-raw print and the client of a text dump re-reads (C18). That FormatFloat with these arguments
+// round-trips is the documented behaviour of package strconv (assumed).
+//@ func (Value).String
+//@   props C18 C16
+//@   check[C18] shortest_roundtrip: called(FormatFloat) && callarg(FormatFloat, 1) == 102 && callarg(FormatFloat, 2) == -1 && callarg(FormatFloat, 3) == 64
+//@                 && bits(callarg(FormatFloat, 0)) == bits(v)
